@@ -1180,6 +1180,38 @@ func (r *Runner) APIStep(op Op) ([]Disc, bool) {
 			delete(m.Buckets, op.B)
 		}
 		return nil, true
+	case "copy":
+		// Backend.CopyObject with a nil metadata map (PutObject documents that the map may be nil,
+		// and CopyObject hands it through): the destination gets the source's bytes and the source
+		// stays as it is. What metadata the destination ends up with is not stated: none is expected.
+		db, sb := m.bucket(op.B), m.bucket(op.SB)
+		if db == nil || sb == nil {
+			return nil, false
+		}
+		sv := sb.Live(op.SKey)
+		if sv == nil || (m.Hier && db.Conflicts(op.Key)) {
+			return nil, false
+		}
+		var err error
+		func() {
+			defer func() {
+				if p := recover(); p != nil {
+					err = fmt.Errorf("panic: %v", p)
+				}
+			}()
+			_, err = be.CopyObject(op.SB, op.SKey, op.B, op.Key, nil)
+		}()
+		if err != nil {
+			return fail("api-contract", "CopyObject(%s/%s -> %s/%s, nil) = %v", op.SB, op.SKey, op.B, op.Key, err), true
+		}
+		if r.taint == nil {
+			r.taint = map[string]bool{}
+		}
+		if r.taint[op.SB+"\x00"+op.SKey] {
+			r.taint[op.B+"\x00"+op.Key] = true
+		}
+		db.applyPut(m, op.Key, append([]byte(nil), sv.Body...), map[string]string{}, "")
+		return nil, true
 	case "put":
 		if m.bucket(op.B) == nil {
 			return nil, false
